@@ -38,7 +38,34 @@ def rand_system(rng, default_prob=0.2):
     )
 
 
+def dense(rng, raster, tmax=None, nmin=0):
+    """a time drawn from EVERY multiple of `raster` in [nmin*raster, tmax] (not a few favourites), produced in the ways user
+    code produces such numbers: the product n*raster, the double nearest to the decimal literal, a sum of two parts.
+    About 1.5 % of these, times 1e6, land just below an integer in binary64 (truncation vs rounding shows)."""
+    if tmax is None:
+        tmax = rng.choice([0.2e-3, 2e-3, 10e-3])
+    nmax = max(nmin, int(round(tmax / raster)))
+    n = rng.randint(nmin, nmax)
+    u = rng.random()
+    if u < 0.4:
+        return n * raster
+    if u < 0.8:
+        return float('%.9g' % (n * raster))
+    a = rng.randint(0, n)
+    return a * raster + (n - a) * raster
+
+
 class FGen(seqgen.Gen):
+    def __init__(self, *a, **kw):
+        super().__init__(*a, **kw)
+        self.gr = self.sys.grad_raster_time
+        self.rfr = self.sys.rf_raster_time
+        self.br = self.sys.block_duration_raster
+        # chain edge values recur (so that earlier connected events can be re-used where the chain is at the same value)
+        self.palette = [seqgen.Gen.amp(self) for _ in range(self.rng.choice([2, 3, 3]))]
+        self.pool = []          # connected gradient events created so far (re-usable: same data -> same library id)
+
+    # ---- amplitudes ----
     def amp(self):
         """as seqgen.Gen.amp, plus near-twins of an earlier amplitude around the 6-/7-digit rounding threshold
         (duplicate removal must merge exactly what the printer cannot distinguish)"""
@@ -57,38 +84,112 @@ class FGen(seqgen.Gen):
         self._amps = (prev + [a])[-6:]
         return a
 
+    def edge(self):
+        return self.rng.choice(self.palette)
+
+    # ---- events with dense timing ----
+    def ramp_n(self, a0, a1):
+        need = abs(a1 - a0) / self.sys.max_slew
+        return max(1, math.ceil(need / self.gr + 1e-9))
+
     def trap(self, ch):
-        self._twin_ok = True
-        try:
-            return super().trap(ch)
-        finally:
-            self._twin_ok = False
-
-    def conn_duration(self, pairs):
-        """block length (multiple of T0) long enough to ramp every (first, last) pair at <= 45 % of max slew"""
-        need = max([abs(l - f) / (0.45 * self.sys.max_slew) for f, l in pairs] + [4 * T0])
-        n = max(6, math.ceil(need / T0 + 1e-9)) + self.rng.randint(0, 12)
-        return n * T0
-
-    def ext_conn(self, ch, first, last, D):
-        """extended trapezoid from `first` to `last` spanning exactly [0, D]"""
         import pypulseq as pp
         r = self.rng
-        nT = int(round(D / T0))
+        self._twin_ok = True
+        try:
+            a = self.amp()
+        finally:
+            self._twin_ok = False
+        n0 = self.ramp_n(0, a)
+        rise = dense(r, self.gr, tmax=(n0 + r.choice([0, 3, 40])) * self.gr, nmin=n0)
+        fall = rise if r.random() < 0.5 else dense(r, self.gr, tmax=(n0 + r.choice([0, 3, 40])) * self.gr, nmin=n0)
+        return pp.make_trapezoid(ch, amplitude=a, rise_time=rise, flat_time=dense(r, self.gr), fall_time=fall,
+                                 delay=dense(r, self.gr) if r.random() < 0.6 else 0, system=self.sys)
+
+    def ext0(self, ch):
+        """extended trapezoid 0 -> ... -> 0 with a delay; corner times on every multiple of the gradient raster"""
+        import pypulseq as pp
+        r = self.rng
+        a = self.amp()
+        n0 = self.ramp_n(0, a)
+        delay = dense(r, self.gr) if r.random() < 0.7 else 0.0
+        n1 = n0 + r.randint(0, 20)
+        nh = r.randint(0, 200)
+        n2 = n0 + r.randint(0, 20)
+        ns = [n1] + ([n1 + nh] if nh else []) + [n1 + nh + n2]
+        times = np.array([delay] + [delay + n * self.gr for n in ns], dtype=float)
+        amps = np.array([0.0] + [a] * (len(ns) - 1) + [0.0], dtype=float)
+        return pp.make_extended_trapezoid(ch, amplitudes=amps, times=times, system=self.sys)
+
+    def arb0(self, ch):
+        g = self.arb(ch, 0.0, 0.0)
+        if g is not None and self.rng.random() < 0.7:
+            g.delay = dense(self.rng, self.gr)
+        return g
+
+    def adc(self):
+        import pypulseq as pp
+        r = self.rng
+        dwell = r.randint(10, 200) * 1e-7 if r.random() < 0.7 else r.choice([1e-6, 2e-6, 5e-6, 1e-5, 2.5e-6])
+        n = r.randint(4, 256)
+        delay = self.sys.adc_dead_time + dense(r, self.rfr)
+        return pp.make_adc(n, dwell=dwell, delay=delay, freq_offset=r.choice([0, 100.5, -31250.25]),
+                           phase_offset=r.choice([0, 0.5, math.pi]), system=self.sys)
+
+    def rf(self):
+        evs = super().rf()
+        if len(evs) == 1:      # without slice gradient: any delay on the RF raster (below 1 s: KF-5)
+            evs[0].delay = self.sys.rf_dead_time + dense(self.rng, self.rfr)
+        return evs
+
+    def trig(self):
+        import pypulseq as pp
+        r = self.rng
+        dl = dense(r, self.gr)
+        du = dense(r, self.gr, nmin=1)
+        if r.random() < 0.5:
+            return pp.make_trigger(r.choice(['physio1', 'physio2']), delay=dl, duration=du, system=self.sys)
+        return pp.make_digital_output_pulse(r.choice(['osc0', 'osc1', 'ext1']), delay=dl, duration=du, system=self.sys)
+
+    def pad(self, evs, extra=True):
+        """a delay event that puts the block end on the block-duration raster (any multiple, not only 20 us steps)"""
+        import pypulseq as pp
+        end = max([self._end(e) for e in evs] + [0.0])
+        n = math.ceil(end / self.br - 1e-7)
+        if extra and self.rng.random() < 0.5:
+            n += self.rng.randint(0, 300)
+        n = max(n, 1)
+        return pp.make_delay(n * self.br if self.rng.random() < 0.5 else float('%.9g' % (n * self.br)))
+
+    # ---- connected gradients ----
+    def conn_duration(self, pairs, at_least=0.0):
+        """block length (multiple of T0) long enough to ramp every (first, last) pair at <= 45 % of max slew"""
+        need = max([abs(l - f) / (0.45 * self.sys.max_slew) for f, l in pairs] + [4 * T0, at_least])
+        n = max(6, math.ceil(need / T0 - 1e-9)) + self.rng.randint(0, 12)
+        return n * T0
+
+    def feasible(self, f, l, D):
+        return abs(l - f) / D <= 0.45 * self.sys.max_slew
+
+    def ext_conn(self, ch, first, last, D):
+        """extended trapezoid from `first` to `last` spanning exactly [0, D]; corners on any gradient-raster multiple"""
+        import pypulseq as pp
+        r = self.rng
+        nT = int(round(D / self.gr))
         ninner = r.choice([0, 1, 2, 2])
         inner = sorted(set(r.randint(1, nT - 1) for _ in range(ninner)))
         times = [0] + inner + [nT]
         amps = [first]
         for j, t in enumerate(times[1:-1], start=1):
             lin = first + (last - first) * t / nT
-            dtmin = min(t - times[j - 1], times[j + 1] - t) * T0
+            dtmin = min(t - times[j - 1], times[j + 1] - t) * self.gr
             room = max(0.0, self.sys.max_grad - abs(lin))
             jit = r.uniform(-1, 1) * min(0.2 * self.sys.max_slew * dtmin, 0.9 * room)
             amps.append(lin + jit)
         amps.append(last)
-        if ninner == 2 and len(amps) == 4 and r.random() < 0.4:
+        if len(amps) == 4 and r.random() < 0.4:
             amps[2] = amps[1]                     # a plateau
-        tt = np.array([t * T0 for t in times], dtype=float)
+        tt = np.array([t * self.gr for t in times[:-1]] + [D], dtype=float)
         return pp.make_extended_trapezoid(ch, amplitudes=np.array(amps, dtype=float), times=tt, system=self.sys)
 
     def arb_conn(self, ch, first, last, D):
@@ -96,7 +197,7 @@ class FGen(seqgen.Gen):
         edge of the waveform is within a fraction of a slew step of them)"""
         import pypulseq as pp
         r = self.rng
-        gr = self.sys.grad_raster_time
+        gr = self.gr
         n = int(round(D / gr))
         t = (np.arange(n) + 0.5) / n
         base = first + (last - first) * t
@@ -104,7 +205,6 @@ class FGen(seqgen.Gen):
         bump = r.choice([-1, 1]) * r.uniform(0.1, 1.0) * min(0.9 * room, 0.3 * self.sys.max_slew * D / math.pi)
         w = base + bump * np.sin(math.pi * t) ** 2
         if r.random() < 0.5:
-            # non-smooth component: a bounded random walk, zero at both ends
             step = 0.08 * self.sys.max_slew * gr
             walk = np.cumsum(np.array([r.uniform(-1, 1) for _ in range(n)])) * step
             walk -= np.linspace(walk[0], walk[-1], n)
@@ -114,69 +214,133 @@ class FGen(seqgen.Gen):
         return pp.make_arbitrary_grad(ch, np.asarray(w, dtype=float), first=float(first), last=float(last), system=self.sys)
 
     def conn(self, ch, first, last, D):
-        if self.rng.random() < 0.6:
-            return self.arb_conn(ch, first, last, D)
-        return self.ext_conn(ch, first, last, D)
+        if self.rng.random() < 0.55:
+            g = self.arb_conn(ch, first, last, D)
+        else:
+            g = self.ext_conn(ch, first, last, D)
+        self.pool = (self.pool + [copy.deepcopy(g)])[-14:]
+        return g
 
+    def pick_last(self, f, D, final):
+        """a chain value reachable from f within D (None if there is none)"""
+        if final:
+            return 0.0 if self.feasible(f, 0.0, D) else None
+        cands = [v for v in self.palette + [0.0, 0.0, f] if self.feasible(f, v, D) and not (f == 0 and v == 0)]
+        return self.rng.choice(cands) if cands else None
+
+    # ---- blocks ----
     def block(self, final=False):
-        import pypulseq as pp
-        r = self.rng
         carry = [ch for ch in 'xyz' if self.last[ch] != 0]
-        start = (not final) and r.random() < 0.3
-        if not carry and not start:
-            return super().block(final=final)
-        pairs = {}
-        for ch in 'xyz':
-            f = self.last[ch]
-            if f != 0 or r.random() < 0.55:
-                l = 0.0 if (final or r.random() < 0.35) else self.amp()
-                if f == 0 and l == 0:
-                    if final:
-                        continue
-                    l = self.amp()
-                pairs[ch] = (f, l)
-        if not pairs:
-            return super().block(final=final)
-        # sometimes the channels that start a chain share ONE gradient event (same library id on two channels)
-        fresh = [ch for ch, (f, l) in pairs.items() if f == 0]
-        share = len(fresh) >= 2 and r.random() < 0.4
-        if share:
-            for ch in fresh[1:]:
-                pairs[ch] = pairs[fresh[0]]
-        D = self.conn_duration(pairs.values())
+        if carry or ((not final) and self.rng.random() < 0.3):
+            evs = self.chain_block(final)
+            if evs is not None:
+                return evs
+        return self.free_block()
+
+    def free_block(self):
+        r = self.rng
         evs = []
-        shared = None
-        for ch, (f, l) in pairs.items():
-            if share and ch in fresh and shared is not None:
-                g = copy.deepcopy(shared)
-                g.channel = ch
-            else:
-                g = self.conn(ch, f, l, D)
-                if share and ch in fresh:
-                    shared = g
-            evs.append(g)
-        # other events that fit into D
+        taken = set()
+        has_rf = self.use['rf'] and r.random() < 0.35
+        if has_rf:
+            rfev = self.rf()
+            evs += rfev
+            taken |= {e.channel for e in rfev if e.type in ('trap', 'grad')}
+        for ch in 'xyz':
+            if ch in taken or r.random() > (0.4 if has_rf else 0.75):
+                continue
+            kind = r.choice(['trap', 'ext', 'arb', 'ext', 'arb'])
+            g = self.trap(ch) if kind == 'trap' else self.ext0(ch) if kind == 'ext' else self.arb0(ch)
+            evs.append(g if g is not None else self.trap(ch))
+        if self.use['adc'] and not has_rf and r.random() < 0.45:
+            evs.append(self.adc())
+        if self.use['labels']:
+            for _ in range(r.choice([0, 0, 1, 2, 3])):
+                evs.append(self.label())
+            for _ in range(r.choice([0, 0, 0, 1, 2])):
+                evs.append(self.trig())
+        evs.append(self.pad(evs))
+        for ch in 'xyz':
+            self.last[ch] = 0.0
+        r.shuffle(evs)
+        return evs
+
+    def chain_block(self, final):
+        """every channel that is away from zero continues; channels at zero may start.  Earlier connected events are
+        RE-USED where the chain is at their first value (same data -> same library id): on one or several channels,
+        adjacent or not, and followed later by new events."""
+        r = self.rng
+        chans = list('xyz')
+        r.shuffle(chans)
+        reuse, D = {}, None
+        if self.pool and r.random() < 0.6:
+            for ch in chans:
+                f = self.last[ch]
+                if f == 0 and r.random() < 0.4:
+                    continue
+                cands = [e for e in self.pool if float(e.first) == f and (D is None or abs(e.shape_dur - D) < 1e-12)
+                         and (not final or float(e.last) == 0)]
+                if cands and r.random() < 0.75:
+                    e = r.choice(cands)
+                    reuse[ch] = e
+                    D = float(e.shape_dur)
+        plan = {}
+        for attempt in range(2):
+            plan = {}
+            ok = True
+            for ch in chans:
+                f = self.last[ch]
+                if ch in reuse:
+                    plan[ch] = (f, float(reuse[ch].last))
+                    continue
+                if f == 0 and (final or r.random() < 0.5):
+                    continue
+                if D is not None:
+                    l = self.pick_last(f, D, final)
+                    if l is None:
+                        ok = False
+                        break
+                else:
+                    l = 0.0 if final else r.choice(self.palette + [0.0, f])
+                    if f == 0 and l == 0:
+                        l = self.edge()
+                plan[ch] = (f, l)
+            if ok:
+                break
+            reuse, D = {}, None            # the re-used duration does not suit the other channels: build everything new
+        if not plan:
+            return None
         extra = []
-        if self.use['rf'] and r.random() < 0.25:
-            cand = [e for e in self.rf() if e.type == 'rf']
-            extra += cand
+        if self.use['rf'] and r.random() < 0.2:
+            extra += [e for e in self.rf() if e.type == 'rf']
         elif self.use['adc'] and r.random() < 0.5:
             extra.append(self.adc())
         for ch in 'xyz':
-            if ch not in pairs and r.random() < 0.3:
-                extra.append(self.trap(ch))
-        for e in extra:
-            if self._end(e) <= D + 1e-12:
-                evs.append(e)
+            if ch not in plan and self.last[ch] == 0 and r.random() < 0.5:
+                kind = r.choice(['trap', 'ext', 'arb'])
+                g = self.trap(ch) if kind == 'trap' else self.ext0(ch) if kind == 'ext' else self.arb0(ch)
+                if g is not None:
+                    extra.append(g)
         if self.use['labels']:
             for _ in range(r.choice([0, 0, 1, 2])):
-                evs.append(self.label())
+                extra.append(self.label())
             for _ in range(r.choice([0, 0, 0, 1, 2])):
-                t = self.trig()
-                if self._end(t) <= D + 1e-12:
-                    evs.append(t)
+                extra.append(self.trig())
+        if D is None:
+            longest = max([self._end(e) for e in extra] + [0.0])
+            D = self.conn_duration(plan.values(), at_least=longest if longest <= 2.5e-3 else 0.0)
+        evs = []
+        for ch, (f, l) in plan.items():
+            if ch in reuse:
+                g = copy.deepcopy(reuse[ch])
+                g.channel = ch
+            else:
+                g = self.conn(ch, f, l, D)
+            evs.append(g)
+        evs += [e for e in extra if self._end(e) <= D + 1e-12]
         for ch in 'xyz':
-            self.last[ch] = pairs[ch][1] if ch in pairs else 0.0
+            self.last[ch] = plan[ch][1] if ch in plan else 0.0
+        self.n_reused = getattr(self, 'n_reused', 0) + len(reuse)
         r.shuffle(evs)
         return evs
 
@@ -187,7 +351,7 @@ def random_sequence(rng, system=None, n_blocks=None, use_block_cache=True, **kw)
     system = system or rand_system(rng)
     seq = pp.Sequence(system, use_block_cache=use_block_cache)
     g = FGen(rng, system, **kw)
-    n = n_blocks or rng.randint(1, 12)
+    n = n_blocks or rng.randint(1, 16)
     stored = 0
     tries = 0
     while stored < n and tries < 4 * n:
@@ -218,6 +382,7 @@ def random_sequence(rng, system=None, n_blocks=None, use_block_cache=True, **kw)
         seq.set_definition('MaxAdcSegmentLength', rng.choice([1000, 8192]))
     if rng.random() < 0.3:
         seq.set_definition('kappa', rng.choice([1.23456789012, -0.000123456789123, 1e-9, 123456789.5]))
+    seq._gen_reused = getattr(g, 'n_reused', 0)
     return seq, stored, system
 
 
